@@ -320,6 +320,8 @@ func constructOutcome(h *hctx, units []*propeller.Unit, local, k, p int) (string
 func modelConstruct(h *hctx, sig string, input any, units []*propeller.Unit, local, k, p int, impl string) {
 	shards := make([][]byte, len(units))
 	toks := make([]string, len(units))
+	var roots []string // distinct MessageRoots, as terms
+	rootIdx := map[hash]int{}
 	for i, u := range units {
 		if u == nil {
 			toks[i] = "nil"
@@ -329,16 +331,26 @@ func modelConstruct(h *hctx, sig string, input any, units []*propeller.Unit, loc
 		for j, s := range u.ShardData {
 			l[j] = s
 		}
-		toks[i] = h.tt.termOf(hash(u.MessageRoot)) + "|" + hexList(l)
+		ri, ok := rootIdx[hash(u.MessageRoot)]
+		if !ok {
+			ri = len(roots)
+			rootIdx[hash(u.MessageRoot)] = ri
+			roots = append(roots, h.tt.termOf(hash(u.MessageRoot)))
+		}
+		toks[i] = strconv.Itoa(ri) + "|" + hexList(l)
 		if len(u.ShardData) > 0 {
 			shards[i] = u.ShardData[0]
 		}
+	}
+	rootsTok := "-"
+	if len(roots) > 0 {
+		rootsTok = strings.Join(roots, ";")
 	}
 	rs := "none"
 	if out, err, _ := recoverImpl(shards, k, p); err == nil && out != nil {
 		rs = hexList(out)
 	}
-	line := fmt.Sprintf("construct %s %d %d %d %s %s", h.cfg, k, p, local, rs, strings.Join(toks, " "))
+	line := fmt.Sprintf("construct %s %d %d %d %s %s %s", h.cfg, k, p, local, rs, rootsTok, strings.Join(toks, " "))
 	h.later(line, func(ans string) {
 		model := ans
 		if f := strings.Fields(ans); len(f) == 4 && f[0] == "ok" {
@@ -545,7 +557,7 @@ func e2eCase0(h *hctx, k, p int, msg []byte, nonce uint64, seedForReplay uint64,
 func secE2E(h *hctx, r *lib.RNG) {
 	type kp struct{ k, p int }
 	var cfgs []kp
-	for n := 2; n <= h.f.Scale(11, 14); n++ { // the scheduler's (k, p) for a committee of n
+	for n := 2; n <= h.f.Scale(12, 14); n++ { // the scheduler's (k, p) for a committee of n
 		k := max(1, (n-1)/3)
 		cfgs = append(cfgs, kp{k, n - 1 - k})
 	}
@@ -568,16 +580,20 @@ func secE2E(h *hctx, r *lib.RNG) {
 				continue
 			}
 			seen[l] = true
-			limit := h.f.Scale(1024, 8192)
-			if l > 1000 {
-				limit = h.f.Scale(10, 256)
-			} else if c.k+c.p > 8 && l > 2*k+1 {
-				limit = h.f.Scale(200, 8192)
+			n := c.k + c.p
+			limit := h.f.Scale(2048, 8192) // all subsets up to n = 11 (thorough: 13)
+			switch {
+			case l > 1000:
+				limit = h.f.Scale(12, 128)
+			case n > 13:
+				limit = h.f.Scale(300, 3000)
+			case n > 9 && l > 2*k+1:
+				limit = h.f.Scale(300, 8192)
 			}
 			e2eCase(h, c.k, c.p, genMsg(r, l), lib.Pick(r, []uint64{0, 1, 1758700000000000000, 1<<63 - 1, 1 << 63}), r, limit)
 		}
 	}
-	for i := 0; i < h.f.Scale(40, 1500); i++ {
+	for i := 0; i < h.f.Scale(80, 1500); i++ {
 		k, p := r.Range(1, 6), r.Range(0, 6)
 		e2eCase(h, k, p, genMsg(r, r.Intn(8*k+4)), r.Uint64()>>uint(r.Intn(64)), r, h.f.Scale(64, 256))
 	}
